@@ -193,6 +193,7 @@ ListEffect(f, x, y, s, i, j) ==
     [] f = "getslice" -> Fresh(x, GetSliceD(M, i, j, NoneV), x \o " = " \o y \o "[" \o Sl(i, j) \o "]")
     [] f = "listcopy" -> Fresh(x, M, x \o " = list(" \o y \o ")")
     [] f = "concat" -> Fresh(x, L \o M, x \o " = " \o x \o " + " \o y)
+    [] f = "concat2" -> Fresh(x, M \o L, x \o " = " \o y \o " + " \o x)
     [] f = "repeat" -> Fresh(x, RepeatD(M, 2), x \o " = " \o y \o " * 2")
     [] f = "rebind" -> Rebind(x, y)
     [] f = "contains" -> Same(s \o " in " \o x, "ok", <<BoolAtom(FirstEq(L, s) # 0)>>)
@@ -210,7 +211,7 @@ ListEffect(f, x, y, s, i, j) ==
 \* which parameters a form reads (the others are pinned so that a statement is enumerated once)
 ListUses(f) ==
   CASE f \in {"append", "remove", "contains", "index", "count"} -> {"s"}
-    [] f \in {"appendref", "extend", "copy", "iadd", "slicecopy", "listcopy", "concat", "repeat", "rebind", "eq", "forappend", "listcomp"} -> {"y"}
+    [] f \in {"appendref", "extend", "copy", "iadd", "slicecopy", "listcopy", "concat", "concat2", "repeat", "rebind", "eq", "forappend", "listcomp"} -> {"y"}
     [] f \in {"insert", "setitem"} -> {"i", "s"}
     [] f \in {"popi", "delitem", "getitem", "imul"} -> {"i"}
     [] f \in {"setslice", "setslice2", "setslicem1", "getslice"} -> {"y", "i", "j"}
@@ -231,7 +232,7 @@ ListEnabled(f, x, y, s, i, j) ==
   /\ f = "forappend" => \A b \in Refs(L) : NoCycle(heap, var[y], b)
   /\ CASE f = "append" -> Small(n + 1)
        [] f = "appendref" -> Small(n + 1) /\ NoCycle(heap, var[x], var[y])
-       [] f \in {"extend", "iadd", "concat"} -> Small(n + Len(M))
+       [] f \in {"extend", "iadd", "concat", "concat2"} -> Small(n + Len(M))
        [] f = "insert" -> Small(n + 1)
        [] f = "imul" -> i \in {0, 2} /\ Small(n * i)
        [] f = "repeat" -> Small(2 * Len(M))
@@ -339,10 +340,14 @@ SetEnabled(f, x, y, s) ==
 -----------------------------------------------------------------------------
 (* initial heaps: p and q are one object, r is another                                              *)
 InitHeap == CASE Kind = "list" -> << <<Sc("0"), Sc("1")>>, <<Sc("2")>> >>
-              [] Kind = "dict" -> << [kk \in {"a"} |-> 0], [kk \in {"b"} |-> 1] >>
+              \* r shares a key with p under another value: equality has to look at the values within two statements
+              [] Kind = "dict" -> << [kk \in {"a"} |-> 0], [kk \in {"a", "b"} |-> 1] >>
               [] Kind = "set" -> << {0, 1}, {2} >>
-InitText == CASE Kind = "list" -> <<"p = [0, 1]", "q = p", "r = [2]">>
-              [] Kind = "dict" -> <<"p = {'a': 0}", "q = p", "r = {'b': 1}">>
+\* The lists are made by statements, not by displays alone: an implementation keeps spare room behind a list that was
+\* shortened, and storage wrongly shared between a list and something derived from it only shows when there is such
+\* room (found by an independently seeded change: `a + b` built with append on a's storage). The model's heap is the same.
+InitText == CASE Kind = "list" -> <<"p = [0, 1, 7]", "del p[2]", "q = p", "r = [2, 7]", "del r[1]">>
+              [] Kind = "dict" -> <<"p = {'a': 0}", "q = p", "r = {'a': 1, 'b': 1}">>
               [] Kind = "set" -> <<"p = {0, 1}", "q = p", "r = {2}">>
 Init == /\ cf \in Configs
         /\ heap = InitHeap
@@ -435,7 +440,11 @@ SimSpec == Init /\ [][SimNext]_vars
 EmitFinal == (~EmitAll /\ Len(hist) = MaxOps) => PrintT(ToJson([kind |-> Kind, cfg |-> cf.name, init |-> InitText, steps |-> hist]))
 
 \* TLC identifies situations, not the ways they were reached: the history is bookkeeping
-View == <<cf.name, var, heap, iter>>
+\* ... except the way the newest object was made: every way of copying (slice, constructor, method, +, *, comprehension,
+\* set operator) must be followed by every mutation, so situations reached by different copying statements stay apart
+CopyForms == {"slicecopy", "getslice", "listcopy", "concat", "concat2", "repeat", "listcomp", "copy", "dictcopy", "setcopy", "or", "and", "sub", "xor"}
+CopyTag == IF hist # <<>> /\ hist[Len(hist)].form \in CopyForms THEN hist[Len(hist)].form ELSE ""
+View == <<cf.name, var, heap, iter, CopyTag>>
 
 -----------------------------------------------------------------------------
 (* invariants of the model                                                                          *)
